@@ -62,6 +62,11 @@ func init() {
 	gtFamily("74-gotrans-data", []gtItem{
 		it("data", "List.Index"),
 		it("data", "Map.Key"),
+		it("data", "Undefined.String"),
+		it("data", "Null.String"),
+		it("data", "Bool.String"),
+		it("data", "Int.String"),
+		it("data", "String.String"),
 	})
 	gtFamily("75-gotrans-soymsg", []gtItem{
 		it("soymsg", "isAlphaNumeric"),
@@ -69,7 +74,6 @@ func init() {
 		{dir: "soymsg", key: "calcID", cfg: &gtCfg{afterDecl: "fp", fragVars: [][2]string{{"fp", "uint64"}}, suffix: "tail"}},
 		tbl("soymsg", "htmlTagNames"),
 		it("soymsg/pomsg", "translated"),
-		it("soymsg/pomsg", "bundle.Locale"),
 	})
 	gtFamily("76-gotrans-soyjs", []gtItem{
 		it("soyjs", "ES6Identifier"),
